@@ -34,6 +34,10 @@ def total_bytes(ops):
             t += 16
         elif o.startswith("fill:"):
             t += int(o[5:])
+        elif o.startswith(("clonef:", "splitf:")):
+            t += int(o.split(":")[1]) + 16
+        elif o in ("clone32", "split32", "clone", "split"):
+            t += 16
     return t
 
 
@@ -110,11 +114,49 @@ def check_history(req, impl, windows, base_pad):
     issued = {}                     # stream -> list of (start, end)
     where = "(stream %%d, window from block %d)" % ((ctr - base_pad) & M64)
     for op, tok in zip(ops, toks):
-        if op in ("jump", "split"):
+        child = None
+        if op.startswith(("clone", "split")):
+            # the child (a clone / the generator as it was) continues the OLD stream from the current position: what it returns
+            # must be keystream of that stream (never zero / default buffer content); reuse is not judged for it (by design it
+            # repeats what the original returns later, or in the case of split what nobody else returns)
+            kind = op.split(":")[0]
+            if kind in ("clone", "split"):
+                parts = tok.split(":")[1:]
+                child = [("u64", p) for p in parts]
+            elif kind in ("clone32", "split32"):
+                child = [("u32", p) for p in tok.split(":")[1:]]
+            else:
+                child = [("fill", tok.split(":", 1)[1])]
+            w = windows[s]
+            cur = cursor
+            for cop, ctok in child:
+                b = int(ctok).to_bytes(8 if cop == "u64" else 4, "little") if cop != "fill" else bytes.fromhex(ctok)
+                off = 0
+                while off < len(b):
+                    pos, n = best_run(w.data, b, off, cur, 0)
+                    rem = len(b) - off
+                    if n < min(4, rem):
+                        if rem >= 4 and cop == "fill":
+                            # 1..3 bytes of an old buffer tail may precede the fresh run
+                            hit = False
+                            for dd in (1, 2, 3):
+                                if rem - dd >= 4 and best_run(w.data, b, off + dd, None, 0)[1] >= 4:
+                                    off += dd; cur = None; hit = True
+                                    break
+                            if hit:
+                                continue
+                        if rem >= 4:
+                            return ("the %s child of op %s returned bytes that are not keystream of the stream it continues (longest match %d of %d bytes) " % (cop, op, n, rem)) + where % s
+                        break
+                    cur = pos + n
+                    off += n
+            if kind.startswith("split"):
+                s = (s + 1) & M64
+                cursor = None
+            continue
+        if op == "jump":
             s = (s + 1) & M64
             cursor = None
-            continue
-        if op == "clone":
             continue
         w = windows[s]
         iv = issued.setdefault(s, [])
@@ -178,9 +220,9 @@ def run_oracle(binary, reqs, impls):
     spec_reqs, index = [], []
     for qi, req in enumerate(reqs):
         N, key, ctr, st, ops = parse_req(req)
-        J0 = sum(1 for o in ops if o in ("jump", "split"))
+        J0 = sum(1 for o in ops if o == "jump" or o.startswith("split"))
         nb = total_bytes(ops) // 64 + 12 + base_pad + 8 * J0   # a jump discards up to one batch
-        J = sum(1 for o in ops if o in ("jump", "split"))
+        J = sum(1 for o in ops if o == "jump" or o.startswith("split"))
         for j in range(J + 1):
             for b in range(nb):
                 spec_reqs.append("specblock n=%d key=%s ctr=%d str=%d" % (N, ",".join(map(str, key)), (ctr - base_pad + b) & M64, (st + j) & M64))
